@@ -96,7 +96,8 @@ class RawPeer:
 
     def __init__(self, net: SimNet, ep: Endpoint, script, *, tls_ctx=None, server_side=False,
                  server_hostname=None, reader="eager", read_rate=None, read_interval=0.05,
-                 read_pause_until=None, polite_close=True, coalesce_first=False, name="peer"):
+                 read_pause_until=None, polite_close=True, coalesce_first=False, name="peer",
+                 keep_cipher=False):
         self.net = net
         self.ep = ep
         self.name = name
@@ -114,6 +115,7 @@ class RawPeer:
         self.rx_plain = bytearray()
         self.rx_log = []          # (time, nbytes) plaintext arrivals
         self.rx_cipher_total = 0
+        self.rx_cipher = bytearray() if keep_cipher else None
         self.t_hs_done = None
         self.t_close_notify = None
         self.t_fin = None
@@ -211,6 +213,8 @@ class RawPeer:
         data = self.ep.recv_all() if limit is None else self.ep.recv_n(limit)
         if data:
             self.rx_cipher_total += len(data)
+            if self.rx_cipher is not None:
+                self.rx_cipher += data
             if self.eng:
                 was = self.eng.hs_done
                 plain = self.eng.feed(data)
@@ -265,6 +269,8 @@ class RawPeer:
         data = self.ep.recv_all()
         if data:
             self.rx_cipher_total += len(data)
+            if self.rx_cipher is not None:
+                self.rx_cipher += data
             if self.eng:
                 plain = self.eng.feed(data)
                 if self.eng.got_close_notify and self.t_close_notify is None:
